@@ -517,6 +517,23 @@ class ArgumentParser:
         return configurations
 
 
+def _directory_named_by(path):
+    """
+    Return the absolute path of the directory that `path` names for the
+    operating system. Textual normalization is only used where it does not
+    change the meaning (".." after a symbolic link to a directory).
+    """
+    normalized = os.path.abspath(path)
+    if os.path.isdir(path) != os.path.isdir(normalized):
+        # e.g. "missing/../inc": names nothing, although "inc" exists.
+        return path
+    if os.path.isdir(path) and os.path.realpath(path) != os.path.realpath(
+        normalized,
+    ):
+        return os.path.realpath(path)
+    return normalized
+
+
 def load_database(dbpath, rootdir):
     """
     Load a compilation database.
@@ -547,16 +564,19 @@ def load_database(dbpath, rootdir):
                     os.path.join(rootdir, command.directory),
                 )
 
-        if os.path.isabs(command.filename):
-            path = os.path.abspath(command.filename)
-        else:
-            path = os.path.abspath(os.path.join(filedir, command.filename))
+        # The operating system decides what the spelling names: ".." after
+        # a symbolic link to a directory must not be cancelled textually.
+        path = os.path.join(filedir, command.filename)
 
         # Skip files that don't exist.
         # (e.g., because they're generated by running make)
         if not os.path.isfile(path):
-            log.warning(f"Ignoring non-existent file: {path}")
+            log.warning(f"Ignoring non-existent file: {os.path.abspath(path)}")
             continue
+        if os.path.realpath(path) != os.path.realpath(os.path.abspath(path)):
+            path = os.path.realpath(path)
+        else:
+            path = os.path.abspath(path)
 
         # Parse command-line arguments, emulating compiler-specific behavior.
         compiler_name = os.path.basename(command.arguments[0])
@@ -573,7 +593,7 @@ def load_database(dbpath, rootdir):
             # Include paths may be specified relative to the directory in
             # which the command runs (the root, unless specified otherwise).
             entry["include_paths"] = [
-                os.path.abspath(os.path.join(filedir, f))
+                _directory_named_by(os.path.join(filedir, f))
                 for f in entry["include_paths"]
             ]
 
